@@ -92,3 +92,41 @@ Proof.
     destruct (uttl =? 0); destruct (fttl =? 0) eqn:E; close_cmp; cbv iota; try reflexivity;
     destruct (-1 <? fttl); reflexivity.
 Qed.
+
+(* ---- Trait.init, the background goroutines: the janitor runs iff the backend installed DeleteExpired or Evict (the
+   options are applied first), the items counter iff there is a stats tracker and a Len; the job interval
+   defaults to one hour, the report interval to one minute (TieCleanup.tie_janitor / tie_report_items_count say what
+   one turn of each does) ---- *)
+Definition run_init_gos (stats len de ev : bool) (ji ri : Z) : option (list value * option value * option value) :=
+  run df_prims (jit_zero_fcmp false) df_loop (fun _ _ => None) (fun _ => None) fn_Trait_init
+      [VPtr true "c"; VPtr true "config"; VPtr true "options"]
+      [("config.DeleteExpiredAfter", VZ 1); ("config.DeleteExpiredJobInterval", VZ ji); ("config.ItemsCountReportInterval", VZ ri);
+       ("config.ExpirationJitter", VF (FSym "ExpirationJitter")); ("config.TimeToLive", VZ 1);
+       ("config.Stats", VPtr stats "stats"); ("config.Logger", VNil); ("c.Len", VPtr len "Len");
+       ("c.DeleteExpired", VPtr de "DeleteExpired"); ("c.Evict", VPtr ev "Evict")]
+      (fun s => Some (concat (effects_named "go" (eff s)),
+                      lookup "config.DeleteExpiredJobInterval" (env s), lookup "config.ItemsCountReportInterval" (env s))).
+
+Theorem tie_trait_goroutines : forall stats len de ev ji ri,
+  run_init_gos stats len de ev ji ri =
+  Some ((if stats && len then [VStr "c.reportItemsCount"] else []) ++ (if de || ev then [VStr "c.janitor"] else []),
+        Some (VZ (if ji =? 0 then 3600 * sec else ji)), Some (VZ (if ri =? 0 then 60 * sec else ri)))%list.
+Proof.
+  intros [|] [|] [|] [|] ji ri; unfold run_init_gos;
+    assert (3600 * sec = 3600000000000) as -> by reflexivity; assert (60 * sec = 60000000000) as -> by reflexivity;
+    cbv -[Z.eqb Z.ltb Z.leb Z.add Z.sub Z.mul Z.opp]; destruct (ji =? 0); destruct (ri =? 0); reflexivity.
+Qed.
+
+(* NewTrait / NewTraitOf: a fresh trait initialised by init with the caller's configuration and options *)
+Definition run_new_trait (f : gfunc) : option (list value * list effect) :=
+  run (fun f args s => match f, args with
+                       | "t.init", [c; o] => Some (VNil, emit "init" [c; o] s)
+                       | "t.Trait.init", [c; o] => Some (VNil, emit "init" [c; o] s)
+                       | _, _ => None end)
+      (fun _ _ _ => false) no_loop (fun vs s => Some (vs, eff s)) (fun _ => None) f
+      [VPtr true "config"; VPtr true "options"] [] (fun _ => None).
+
+Theorem tie_new_trait :
+  run_new_trait fn_NewTrait = Some ([VRec "Trait" []], [("init", [VPtr true "config"; VPtr true "options"])]) /\
+  run_new_trait fn_NewTraitOf = Some ([VRec "TraitOf[V]" []], [("init", [VPtr true "config"; VPtr true "options"])]).
+Proof. split; reflexivity. Qed.
